@@ -648,3 +648,409 @@ Proof.
   - intros l nm. unfold find_env. rewrite ts_envs0, ts_envs1. reflexivity.
   - congruence.
 Qed.
+
+(* ------------------------------------------------------------------------------------------ *)
+(* 7. resumed from a valid database: the restart transaction is the identity                   *)
+(* ------------------------------------------------------------------------------------------ *)
+Lemma foldM_id {A S} (f : S -> A -> res S) (l : list A) (s : S) :
+  (forall x, In x l -> f s x = Ok s) -> foldM f l s = Ok s.
+Proof.
+  induction l as [|x l IH]; intros H; cbn; [reflexivity|].
+  rewrite H by (left; reflexivity). cbn. apply IH. intros y Hy. apply H. right. exact Hy.
+Qed.
+
+Lemma resume_equals_scratch_noop s :
+  quiescent_success_b s = true -> step_op OpResetInterrupted s = Ok s.
+Proof.
+  unfold quiescent_success_b. cbn [step_op]. unfold reset_interrupted. intros H.
+  rewrite forallb_forall in H.
+  rewrite foldM_id.
+  2:{ intros r Hr. apply H in Hr. apply andb_true_iff in Hr as [Hr _]. apply andb_true_iff in Hr as [Hr _].
+      destruct (sst r); try reflexivity. discriminate. }
+  cbn [bind]. rewrite foldM_id.
+  2:{ intros r Hr. apply H in Hr. apply andb_true_iff in Hr as [Hr _]. apply andb_true_iff in Hr as [_ Hr].
+      destruct (sst r); try reflexivity. discriminate. }
+  cbn [bind]. apply foldM_id.
+  intros r Hr. apply H in Hr. apply andb_true_iff in Hr as [_ Hr].
+  destruct (sstate_of (sl r) s) as [[]|]; try reflexivity. rewrite Hr. reflexivity.
+Qed.
+
+Corollary resume_apply_noop s : quiescent_success_b s = true -> apply_op s OpResetInterrupted = s.
+Proof. intros H. unfold apply_op. rewrite resume_equals_scratch_noop by exact H. reflexivity. Qed.
+
+(* ------------------------------------------------------------------------------------------ *)
+(* 8. interleavings: adjacent swaps of commuting transactions (generic diamond argument)       *)
+(* ------------------------------------------------------------------------------------------ *)
+Section Swaps.
+  Variable E : st -> st -> Prop.          (* state equivalence *)
+  Variable P : st -> Prop.                (* invariant of the states considered *)
+  Variable R : op -> op -> Prop.          (* the pairs that may be swapped *)
+  Variable C : op -> Prop.                (* the transactions considered *)
+  Hypothesis E_refl : forall s, E s s.
+  Hypothesis E_trans : forall a b c, E a b -> E b c -> E a c.
+  Hypothesis P_step : forall o s, C o -> P s -> P (apply_op s o).
+  (* congruence: a transaction cannot tell two equivalent states apart *)
+  Hypothesis cong : forall o s s', C o -> P s -> P s' -> E s s' ->
+                                   okb o s = okb o s' /\ E (apply_op s o) (apply_op s' o).
+  (* diamond: acceptance of both is order independent, and if accepted so is the result *)
+  Hypothesis diamond : forall a b s, R a b -> C a -> C b -> P s ->
+      accepted2 a b s = accepted2 b a s /\
+      (accepted2 a b s = true -> E (apply_op (apply_op s a) b) (apply_op (apply_op s b) a)).
+
+  Lemma run_cong ops : forall s s', Forall C ops -> P s -> P s' -> E s s' ->
+      all_ok ops s = all_ok ops s' /\ E (run_ops ops s) (run_ops ops s').
+  Proof.
+    induction ops as [|o ops IH]; intros s s' HC Ps Ps' He; cbn.
+    - split; [reflexivity | exact He].
+    - inversion HC as [|? ? Co HC']; subst.
+      destruct (cong o s s' Co Ps Ps' He) as [Hok He'].
+      destruct (IH (apply_op s o) (apply_op s' o) HC' (P_step _ _ Co Ps) (P_step _ _ Co Ps') He') as [H1 H2].
+      rewrite Hok, H1. split; [reflexivity | exact H2].
+  Qed.
+
+  Lemma P_run ops : forall s, Forall C ops -> P s -> P (run_ops ops s).
+  Proof.
+    induction ops as [|o ops IH]; intros s HC Ps; cbn; [exact Ps|].
+    inversion HC; subst. apply IH; [assumption|]. apply P_step; assumption.
+  Qed.
+
+  Lemma all_ok_app l1 l2 s : all_ok (l1 ++ l2) s = all_ok l1 s && all_ok l2 (run_ops l1 s).
+  Proof.
+    revert s. induction l1 as [|o l1 IH]; intros s; cbn; [reflexivity|].
+    rewrite IH, andb_assoc. reflexivity.
+  Qed.
+  Lemma run_ops_app l1 l2 s : run_ops (l1 ++ l2) s = run_ops l2 (run_ops l1 s).
+  Proof. unfold run_ops. apply fold_left_app. Qed.
+
+  (* Every accepted/rejected verdict and the final graph agree for any two interleavings that
+     differ by swaps of commuting transactions.  "Accepted" is all-or-nothing here: if the swapped
+     pair is not accepted in either order nothing is claimed about the final states (the build
+     fails either way). *)
+  Theorem swaps_sound l1 l2 : swaps R l1 l2 -> Forall C l1 -> forall s, P s ->
+      Forall C l2 /\ all_ok l1 s = all_ok l2 s /\
+      (all_ok l1 s = true -> E (run_ops l1 s) (run_ops l2 s)).
+  Proof.
+    induction 1 as [l|pre a b post Rab|l1 l2 l3 H12 IH12 H23 IH23]; intros HC s Ps.
+    - split; [exact HC|]. split; [reflexivity | intros _; apply E_refl].
+    - apply Forall_app in HC as [Cpre HC]. inversion HC as [|? ? Ca HC']; subst.
+      inversion HC' as [|? ? Cb Cpost]; subst.
+      split; [apply Forall_app; split; [exact Cpre | constructor; [exact Cb | constructor; [exact Ca | exact Cpost]]]|].
+      rewrite !all_ok_app, !run_ops_app.
+      set (s0 := run_ops pre s). assert (P0 : P s0) by (apply P_run; assumption).
+      destruct (diamond a b s0 Rab Ca Cb P0) as [Hacc Heq].
+      unfold accepted2 in Hacc, Heq.
+      change (all_ok (a :: b :: post) s0) with
+        (okb a s0 && (okb b (apply_op s0 a) && all_ok post (apply_op (apply_op s0 a) b))).
+      change (all_ok (b :: a :: post) s0) with
+        (okb b s0 && (okb a (apply_op s0 b) && all_ok post (apply_op (apply_op s0 b) a))).
+      change (run_ops (a :: b :: post) s0) with (run_ops post (apply_op (apply_op s0 a) b)).
+      change (run_ops (b :: a :: post) s0) with (run_ops post (apply_op (apply_op s0 b) a)).
+      rewrite (andb_assoc (okb a s0)), (andb_assoc (okb b s0)), <- Hacc.
+      destruct (okb a s0 && okb b (apply_op s0 a)) eqn:A.
+      + specialize (Heq eq_refl).
+        destruct (run_cong post _ _ Cpost
+                    (P_step _ _ Cb (P_step _ _ Ca P0)) (P_step _ _ Ca (P_step _ _ Cb P0)) Heq) as [H1 H2].
+        rewrite H1. split; [reflexivity | intros _; exact H2].
+      + cbn [andb]. rewrite !andb_false_r. split; [reflexivity | discriminate].
+    - destruct (IH12 HC s Ps) as (C2 & A12 & E12).
+      destruct (IH23 C2 s Ps) as (C3 & A23 & E23).
+      split; [exact C3|]. split; [congruence|].
+      intros Hok. eapply E_trans; [apply E12; exact Hok | apply E23; congruence].
+  Qed.
+End Swaps.
+
+(* ------------------------------------------------------------------------------------------ *)
+(* 9. where the faithful model does NOT commute: witnesses (all replayed on the real code)     *)
+(* ------------------------------------------------------------------------------------------ *)
+Definition refutes (w : list op) (r1 r2 : op) (v : verdict) : Prop :=
+  let s := run_ops w (init_st 3) in
+  all_ok w (init_st 3) = true /\ inv_b s = true /\
+  match issuer r1 with Some c => running_step c s = true | None => True end /\
+  match issuer r2 with Some c => running_step c s = true | None => True end /\
+  both_orders r1 r2 s = v.
+
+(* A stale VOLATILE node (output of a step the plan no longer defines; deleted only at the end
+   of the build) refuses to be an input; once another step has declared the path static it is
+   accepted.  Both issuers are attached and running. *)
+Lemma stale_volatile_input_refuted :
+  refutes w_stale_volatile_input w_stale_volatile_input_r1 w_stale_volatile_input_r2 VDiffSuccess /\
+  attached (KStep, [97]) (run_ops w_stale_volatile_input (init_st 3)) = true.
+Proof. vm_compute. repeat split; reflexivity. Qed.
+
+(* The stale output edge u -> f of a dropped step takes part in the cycle check of an amended
+   input f until somebody re-declares f. *)
+Lemma stale_output_cycle_refuted :
+  refutes w_stale_output_cycle w_stale_output_cycle_r1 w_stale_output_cycle_r2 VDiffSuccess.
+Proof. vm_compute. repeat split; reflexivity. Qed.
+
+(* Re-defining a stale step identically brings back its whole subtree, including a step u that
+   builds f: static(f) is accepted before and refused after. *)
+Lemma recycle_subtree_refuted :
+  refutes w_recycle_subtree w_recycle_subtree_r1 w_recycle_subtree_r2 VDiffSuccess.
+Proof. vm_compute. repeat split; reflexivity. Qed.
+
+(* A running step whose creator is being rerun is detached; what it declares is detached too and
+   can be taken away by the next declaration of the same path. *)
+Lemma detached_creator_static_static_refuted :
+  refutes w_detached_creator_static_static w_detached_creator_static_static_r1
+          w_detached_creator_static_static_r2 VDiffSuccess /\
+  attached (KStep, [97]) (run_ops w_detached_creator_static_static (init_st 3)) = false.
+Proof. vm_compute. repeat split; reflexivity. Qed.
+
+(* Both accepted in both orders, different graphs: the output f of a stale step s keeps its
+   PLANNED row and the edge s -> f when an amended input reuses the node before s is redefined
+   with another signature, and is reset to UNDECLARED in the other order. *)
+Lemma stale_partial_recycle_refuted :
+  refutes w_stale_partial_recycle w_stale_partial_recycle_r1 w_stale_partial_recycle_r2 VDiffGraph.
+Proof. vm_compute. repeat split; reflexivity. Qed.
+
+(* hash result versus declaration of the SAME path (excluded from hash_result_commutes): a
+   confirmation that arrives before the path is re-declared is overwritten by UNCONFIRMED ... *)
+Lemma confirm_vs_static_same_path_refuted :
+  refutes w_confirm_vs_static_same_path w_confirm_vs_static_same_path_r1
+          w_confirm_vs_static_same_path_r2 VDiffGraph.
+Proof. vm_compute. repeat split; reflexivity. Qed.
+(* ... harmless: the declaration returns the path in to_check, and the confirmation that follows
+   it makes the two graphs equal again. *)
+Lemma confirm_vs_static_same_path_converges :
+  let s := run_ops w_confirm_vs_static_same_path (init_st 3) in
+  let r1 := w_confirm_vs_static_same_path_r1 in let r2 := w_confirm_vs_static_same_path_r2 in
+  st_equivb (apply_op (apply_op (apply_op s r1) r2) r1) (apply_op (apply_op s r2) r1) = true.
+Proof. vm_compute. reflexivity. Qed.
+
+(* ------------------------------------------------------------------------------------------ *)
+(* 10. hash_result_commutes: one CONFIRMED hash result (run_hash_job applies one path per      *)
+(*     transaction) against another one on a different path                                    *)
+(* Fragment: no consumer of the confirmed path is SUCCEEDED or FAILED ("calm"), so that the    *)
+(* completion does not start a propagation through built outputs.                              *)
+(* ------------------------------------------------------------------------------------------ *)
+Definition calm_step (l : str) (s : st) : bool :=
+  match sstate_of l s with Some SPending | Some SRunning | Some SChecking => true | _ => false end.
+Definition calm_path (p : str) (s : st) : bool :=
+  forallb (fun l => calm_step l s) (step_sinks_of_file p s).
+
+Definition norm_view (v : option (sstate * need * bool * N * N)) :=
+  match v with
+  | Some (SPending, nd, _, dc, _) => Some (SPending, nd, false, dc, 0)
+  | _ => v
+  end.
+
+Lemma step_view_upd_set l' l f s :
+  (forall r, sl (f r) = sl r) ->
+  step_view l' (upd_step l f s) =
+  if str_eqb l' l then match find_step l' s with
+                       | Some r => Some (sst (f r), sneed (f r), sdef (f r), sdc (f r), shold (f r))
+                       | None => None end
+  else step_view l' s.
+Proof.
+  intros Hf. unfold step_view, find_step, upd_step. cbn [steps set_steps].
+  rewrite find_map_same.
+  2:{ intros x. destruct (str_eqb (sl x) l); [rewrite Hf|]; reflexivity. }
+  destruct (find (fun r => str_eqb (sl r) l') (steps s)) as [r|] eqn:F; cbn [option_map].
+  - apply find_some in F as [_ F]. apply str_eqb_eq in F. rewrite F.
+    destruct (str_eqb l' l); reflexivity.
+  - destruct (str_eqb l' l); reflexivity.
+Qed.
+
+Lemma sstate_of_view l s : sstate_of l s = match step_view l s with Some (st0, _, _, _, _) => Some st0 | None => None end.
+Proof. unfold sstate_of, step_view. destruct (find_step l s); reflexivity. Qed.
+
+Record only_steps (s s' : st) : Prop := mkOS {
+  os_nodes : nodes s' = nodes s; os_files : files s' = files s; os_deps : deps s' = deps s;
+  os_shash : shash s' = shash s; os_envs : envs s' = envs s; os_cap : defer_cap s' = defer_cap s }.
+
+Lemma msp_calm l s s' :
+  calm_step l s = true -> mark_step_pending l s = Ok s' ->
+  only_steps s s' /\
+  (forall l', step_view l' s' = if str_eqb l' l then norm_view (step_view l' s) else step_view l' s).
+Proof.
+  unfold mark_step_pending, fuel_of, calm_step. cbn [mark_step_pending_f]. intros Hc H.
+  destruct (sstate_of l s) as [[]|] eqn:E; try discriminate.
+  - (* PENDING *)
+    unfold set_sstate in H. unfold sstate_of in E.
+    destruct (find_step l s) as [r|] eqn:F; [|discriminate]. inversion E as [E1].
+    cbn in H. inversion H; subst s'; clear H. split; [constructor; reflexivity|].
+    intros l'. rewrite step_view_upd_set by reflexivity. cbn [sst sneed sdef sdc shold].
+    destruct (str_eqb l' l) eqn:EL; [|reflexivity].
+    apply str_eqb_eq in EL. subst l'. unfold step_view. rewrite F, E1. reflexivity.
+  - (* RUNNING *)
+    inversion H; subst s'. split; [constructor; reflexivity|].
+    intros l'. destruct (str_eqb l' l) eqn:EL; [|reflexivity].
+    apply str_eqb_eq in EL. subst l'. rewrite sstate_of_view in E.
+    destruct (step_view l s) as [[[[[st0 nd] d] dc] h]|]; [|discriminate]. inversion E; subst. reflexivity.
+  - (* CHECKING *)
+    inversion H; subst s'. split; [constructor; reflexivity|].
+    intros l'. destruct (str_eqb l' l) eqn:EL; [|reflexivity].
+    apply str_eqb_eq in EL. subst l'. rewrite sstate_of_view in E.
+    destruct (step_view l s) as [[[[[st0 nd] d] dc] h]|]; [|discriminate]. inversion E; subst. reflexivity.
+Qed.
+
+Lemma norm_view_idem v : norm_view (norm_view v) = norm_view v.
+Proof. destruct v as [[[[[[] nd] d] dc] h]|]; reflexivity. Qed.
+Lemma norm_view_state v :
+  match norm_view v with Some (st0, _, _, _, _) => Some st0 | None => None end =
+  match v with Some (st0, _, _, _, _) => Some st0 | None => None end.
+Proof. destruct v as [[[[[[] nd] d] dc] h]|]; reflexivity. Qed.
+
+Lemma only_steps_trans a b c : only_steps a b -> only_steps b c -> only_steps a c.
+Proof. intros [] []. constructor; congruence. Qed.
+
+Lemma fold_msp_calm L : forall s s',
+  forallb (fun l => calm_step l s) L = true ->
+  foldM (fun s l => mark_step_pending l s) L s = Ok s' ->
+  only_steps s s' /\
+  (forall l', step_view l' s' = if mem_str l' L then norm_view (step_view l' s) else step_view l' s).
+Proof.
+  induction L as [|l L IH]; intros s s' Hc H.
+  - cbn in H. inversion H; subst. split; [constructor; reflexivity | reflexivity].
+  - cbn [foldM] in H. cbn [forallb] in Hc. apply andb_true_iff in Hc as [Hl HL].
+    destruct (mark_step_pending l s) as [s1|t|t] eqn:M; cbn [bind] in H; try discriminate.
+    destruct (msp_calm l s s1 Hl M) as [O1 V1].
+    assert (HL1 : forallb (fun l0 => calm_step l0 s1) L = true).
+    { rewrite forallb_forall in *. intros x Hx. specialize (HL x Hx). unfold calm_step in *.
+      rewrite sstate_of_view in *. rewrite V1.
+      destruct (str_eqb x l); [rewrite norm_view_state|]; exact HL. }
+    destruct (IH s1 s' HL1 H) as [O2 V2]. split; [eapply only_steps_trans; eassumption|].
+    intros l'. rewrite V2, V1. cbn [mem_str existsb]. fold (mem_str l' L).
+    destruct (str_eqb l' l), (mem_str l' L); cbn [orb]; try reflexivity. apply norm_view_idem.
+Qed.
+
+(* one CONFIRMED hash result *)
+Definition conf_file (old : option (fstate * option N)) (h : option N) : option (fstate * option N) :=
+  match old with
+  | Some (o, _) =>
+    match transition CConfirmed o (is_some h) with
+    | Some (ns, _) => Some (ns, if clears_hash o ns then None
+                                else Some (match h with Some v => v | None => 0 end))
+    | None => None
+    end
+  | None => None
+  end.
+Definition conf_acts (old : option (fstate * option N)) (h : option N) : bool :=
+  match old with
+  | Some (o, _) => match transition CConfirmed o (is_some h) with Some (_, Some _) => true | _ => false end
+  | None => false
+  end.
+
+Record confirm_spec (p : str) (h : option N) (s s' : st) : Prop := mkCS {
+  cs_nodes : nodes s' = nodes s; cs_deps : deps s' = deps s; cs_shash : shash s' = shash s;
+  cs_envs : envs s' = envs s; cs_cap : defer_cap s' = defer_cap s;
+  cs_file : forall l, file_view l s' = if str_eqb l p then conf_file (file_view p s) h else file_view l s;
+  cs_step : forall l, step_view l s' =
+                      if conf_acts (file_view p s) h && mem_str l (step_sinks_of_file p s)
+                      then norm_view (step_view l s) else step_view l s }.
+
+Lemma sinks_of_deps s1 s2 p : deps s1 = deps s2 -> step_sinks_of_file p s1 = step_sinks_of_file p s2.
+Proof. intros E. unfold step_sinks_of_file, sinks_of. rewrite E. reflexivity. Qed.
+Lemma calm_path_steps s1 s2 p :
+  deps s1 = deps s2 -> (forall l, step_view l s1 = step_view l s2) -> calm_path p s1 = calm_path p s2.
+Proof.
+  intros Ed Es. unfold calm_path. rewrite (sinks_of_deps _ _ p Ed).
+  induction (step_sinks_of_file p s2) as [|l L IH]; cbn; [reflexivity|].
+  rewrite IH. f_equal. unfold calm_step. rewrite !sstate_of_view, Es. reflexivity.
+Qed.
+
+Lemma confirm_one_spec p h s s' :
+  update_file_hashes CConfirmed [(p, h)] s = Ok s' -> calm_path p s = true -> confirm_spec p h s s'.
+Proof.
+  unfold update_file_hashes. cbn [foldM fst snd bind]. intros H Hcalm.
+  destruct (find_file p s) as [r|] eqn:F; [|discriminate].
+  destruct (transition CConfirmed (fstt r) (is_some h)) as [[ns act]|] eqn:T; [|discriminate].
+  cbn [bind app foldM p_path p_state p_hash] in H.
+  unfold set_fstate_hash in H. rewrite F in H.
+  assert (NH : needs_hash ns && match (match h with Some v => Some v | None => Some 0 end : option N) with
+                               | None => true | Some _ => false end = false).
+  { destruct h; rewrite andb_false_r; reflexivity. }
+  rewrite NH in H.
+  assert (NU : fstate_eqb ns FUndeclared = false).
+  { destruct (fstt r), (is_some h); cbn in T; inversion T; reflexivity. }
+  rewrite NU in H. cbn [andb bind] in H.
+  set (hv := if clears_hash (fstt r) ns then None else (match h with Some v => Some v | None => Some 0 end)) in *.
+  set (s1 := upd_file p (fun r0 => mkF (fl r0) ns hv) s) in *.
+  assert (FV : forall l, file_view l s1 = if str_eqb l p then conf_file (file_view p s) h else file_view l s).
+  { intros l. unfold s1. rewrite file_view_upd_set.
+    destruct (str_eqb l p) eqn:E; [|reflexivity]. apply str_eqb_eq in E. subst l.
+    unfold conf_file, file_view. rewrite F, T. unfold hv. destruct h; reflexivity. }
+  assert (ACT : conf_acts (file_view p s) h = is_some act).
+  { unfold conf_acts, file_view. rewrite F, T. destruct act; reflexivity. }
+  assert (CP1 : calm_path p s1 = true) by (rewrite (calm_path_steps s1 s p); [exact Hcalm|reflexivity|reflexivity]).
+  assert (FS1 : fstate_of p s1 = Some ns).
+  { unfold fstate_of. pose proof (FV p) as Q. rewrite str_eqb_refl in Q. unfold file_view in Q.
+    destruct (find_file p s1) as [r1|].
+    - unfold conf_file in Q. unfold file_view in Q. rewrite F, T in Q. inversion Q. reflexivity.
+    - unfold conf_file, file_view in Q. rewrite F, T in Q. discriminate. }
+  assert (NP : ns <> FPlanned).
+  { destruct (fstt r), (is_some h); cbn in T; inversion T; discriminate. }
+  destruct act as [[]|]; cbn [p_act action_eqb filter map foldM bind p_path] in H.
+  - (* AUpdated: not produced by a CONFIRMED transition *)
+    exfalso. destruct (fstt r), (is_some h); cbn in T; inversion T.
+  - (* ADeleted *)
+    unfold handle_deleted_file in H. rewrite FS1 in H.
+    assert (H' : mark_consumers_pending p s1 = Ok s').
+    { destruct ns; try (exfalso; apply NP; reflexivity); cbn [bind] in H;
+        (destruct (mark_consumers_pending p s1); cbn [bind] in H; [exact H | discriminate | discriminate]). }
+    clear H. unfold mark_consumers_pending in H'.
+    apply fold_msp_calm in H' as [O V]; [|exact CP1]. destruct O.
+    constructor;
+      [rewrite os_nodes0; reflexivity | rewrite os_deps0; reflexivity | rewrite os_shash0; reflexivity
+      | rewrite os_envs0; reflexivity | rewrite os_cap0; reflexivity | | ].
+    + intros l. rewrite (view_of_files _ _ os_files0). apply FV.
+    + intros l. rewrite V, ACT. cbn [is_some andb]. reflexivity.
+  - (* ACompleted *)
+    cbn [bind] in H.
+    destruct (mark_consumers_pending p s1) as [s2|t|t] eqn:M; cbn [bind] in H; try discriminate.
+    inversion H; subst s2; clear H. unfold mark_consumers_pending in M.
+    apply fold_msp_calm in M as [O V]; [|exact CP1]. destruct O.
+    constructor;
+      [rewrite os_nodes0; reflexivity | rewrite os_deps0; reflexivity | rewrite os_shash0; reflexivity
+      | rewrite os_envs0; reflexivity | rewrite os_cap0; reflexivity | | ].
+    + intros l. rewrite (view_of_files _ _ os_files0). apply FV.
+    + intros l. rewrite V, ACT. cbn [is_some andb]. reflexivity.
+  - (* no action *)
+    inversion H; subst s'; clear H.
+    constructor; try reflexivity.
+    + exact FV.
+    + intros l. rewrite ACT. reflexivity.
+Qed.
+
+Lemma calm_after_confirm p h s s' q :
+  confirm_spec p h s s' -> calm_path q s' = calm_path q s.
+Proof.
+  intros []. unfold calm_path. rewrite (sinks_of_deps _ _ q cs_deps0).
+  induction (step_sinks_of_file q s) as [|l L IH]; cbn; [reflexivity|].
+  rewrite IH. f_equal. unfold calm_step. rewrite !sstate_of_view, cs_step0.
+  destruct (conf_acts (file_view p s) h && mem_str l (step_sinks_of_file p s));
+    [rewrite norm_view_state|]; reflexivity.
+Qed.
+
+Theorem hash_result_commutes (s sa sb s12 s21 : st) (p1 p2 : str) (h1 h2 : option N) :
+  p1 <> p2 -> calm_path p1 s = true -> calm_path p2 s = true ->
+  step_op (OpUpdateHashes CConfirmed [(p1, h1)]) s = Ok sa ->
+  step_op (OpUpdateHashes CConfirmed [(p2, h2)]) sa = Ok s12 ->
+  step_op (OpUpdateHashes CConfirmed [(p2, h2)]) s = Ok sb ->
+  step_op (OpUpdateHashes CConfirmed [(p1, h1)]) sb = Ok s21 ->
+  st_equiv s12 s21.
+Proof.
+  cbn [step_op]. intros Hne C1 C2 R1 R12 R2 R21.
+  apply confirm_one_spec in R1; [|exact C1].
+  apply confirm_one_spec in R2; [|exact C2].
+  apply confirm_one_spec in R12; [|rewrite (calm_after_confirm _ _ _ _ p2 R1); exact C2].
+  apply confirm_one_spec in R21; [|rewrite (calm_after_confirm _ _ _ _ p1 R2); exact C1].
+  destruct R1, R2, R12, R21.
+  assert (N12 : str_eqb p2 p1 = false) by (apply str_eqb_neq; congruence).
+  assert (N21 : str_eqb p1 p2 = false) by (apply str_eqb_neq; congruence).
+  constructor.
+  - intros k. apply view_of_nodes. congruence.
+  - intros l. rewrite cs_file2, cs_file3, !cs_file0, !cs_file1, N12, N21.
+    destruct (str_eqb l p2) eqn:E2, (str_eqb l p1) eqn:E1; try reflexivity.
+    apply str_eqb_eq in E1, E2. congruence.
+  - intros l. rewrite cs_step2, cs_step3, !cs_file0, !cs_file1, N12, N21.
+    rewrite (sinks_of_deps sa s p2 cs_deps0), (sinks_of_deps sb s p1 cs_deps1).
+    rewrite cs_step0, cs_step1.
+    destruct (conf_acts (file_view p2 s) h2 && mem_str l (step_sinks_of_file p2 s)),
+             (conf_acts (file_view p1 s) h1 && mem_str l (step_sinks_of_file p1 s)); reflexivity.
+  - intros a b. apply view_of_deps. congruence.
+  - intros l. apply view_of_shash. congruence.
+  - intros l nm. unfold find_env. replace (envs s12) with (envs s21) by congruence. reflexivity.
+  - congruence.
+Qed.
